@@ -105,3 +105,169 @@ Example analyze_example :
   analyze_file 65536 false 4294967296 [200000; 200000] 131079 (Some 1) [SRange 0 0 1; SData 7; SRange 1 0 1] [(1, 131071); (0, 131071)] = Some (Some (1, 131071)) /\
   analyze_allowed 65536 false 4294967296 [200000; 200000] 131079 None [SRange 0 0 1; SData 7; SRange 1 0 1] = Some [Some (0, 131071); Some (1, 131071)].
 Proof. vm_compute. repeat split; reflexivity. Qed.
+
+(** ------------------------------------------------------------------------------------------
+    The cross-property hypotheses discharged (Compose/OptimizeApply.v, proofs in
+    Compose/OptimizeApplyProofs.v).  The abstract series are instantiated with what
+    rediff.Optimize writes - [Content := list byte], [RSeries := list op] (the SyncOps of one
+    file), [BSeries := list Scan.ctrl] (the Controls bsdiff.DiffContext.Do emits, eof control
+    included), [render] = the frames: SyncHeader, (BsdiffHeader, Controls | SyncOps), end
+    marker - and applied by the C01 patcher model (Patch/Patcher.v).  [den_rsync] is C01's
+    [replay], [den_bsdiff] is C12's [apply_series] on series a Go Control list can hold. *)
+From Wharf Require Import Bowl.Fresh Patch.Reinterp Patch.Stream Patch.Patcher Patch.PatcherProofs
+     Compose.OptimizeApply Compose.OptimizeApplyProofs.
+From Wharf Require Bsdiff.Scan Bsdiff.ScanProofs Bsdiff.Patch Bsdiff.RoundtripProofs Exec.C12.
+
+(** Bridge between the two models of bsdiff Apply (C12's [apply_series], C01's [process_bsdiff] /
+    [ctrl_loop] / [bs_apply]): on the frames Optimize writes for a mapped file - BsdiffHeader{t},
+    the controls, the end marker - the patcher opens old file [t], writes exactly
+    [den_bsdiff b old_t] through the entry writer of new file [idx], accepts the sentinel, passes
+    the final size check, leaves the remaining frames, and touches no other path. *)
+Theorem bsdiff_series_applied_by_patcher :
+  forall (oldC newC : container) (olds : list (list byte)) (idx : Z) (p : path) (data : list byte)
+         (t : Z) (pt : path) (szt : Z) (oldt : list byte) (b : bseries) (rest : list pmsg) (s : pst),
+    znth (c_files newC) idx = Some (p, Z.of_nat (length data)) ->
+    znth (c_files oldC) t = Some (pt, szt) -> t < 2^63 ->
+    znth olds t = Some oldt ->
+    file_ready (p_tree s) p -> tlookup (p_tree s) p = Some (File (zeros (length data))) ->
+    den_bsdiff b oldt = Some data ->
+    exists s', process_bsdiff oldC newC olds idx (MBH (mkBH t) :: map ctrl_msg b ++ hey_msg :: rest) s = Ok (rest, s') /\
+      tlookup (p_tree s') p = Some (File data) /\
+      (forall q, q <> p -> tlookup (p_tree s') q = tlookup (p_tree s) q).
+Proof. exact process_bsdiff_realized. Qed.
+Print Assumptions bsdiff_series_applied_by_patcher.
+
+(** C07's hypothesis [bsdiff_roundtrip] holds of the instance, by C12's [bsdiff_roundtrip]: for
+    every scan block size, partition count and search oracle within range, and ALL contents. *)
+Theorem bsdiff_roundtrip_instance :
+  forall (bsz : Z) (search : list byte -> N -> list byte -> Z * Z) (partitions : Z),
+    0 < bsz -> 0 <= partitions ->
+    (forall old bi, ScanProofs.search_in_range (Scan.len old) (search old bi)) ->
+    forall old new, den_bsdiff (bsd_series bsz search partitions old new) old = Some new.
+Proof. exact bsd_series_roundtrip. Qed.
+Print Assumptions bsdiff_roundtrip_instance.
+
+(** ... and on byte strings (of a length a Go slice can have) the instance IS the output of the
+    C12 model of bsdiff.DiffContext.Do, which does not fail. *)
+Theorem bsdiff_instance_is_go :
+  forall (bsz : Z) (search : list byte -> N -> list byte -> Z * Z) (partitions : Z),
+    0 < bsz -> 0 <= partitions ->
+    (forall old bi, ScanProofs.search_in_range (Scan.len old) (search old bi)) ->
+    forall old new,
+      RoundtripProofs.bytes_ok old -> RoundtripProofs.bytes_ok new -> Scan.len old < 2^63 ->
+      Scan.bsdiff_do bsz (search old) partitions old new = Scan.Ok (bsd_series bsz search partitions old new).
+Proof. exact bsd_series_is_go. Qed.
+Print Assumptions bsdiff_instance_is_go.
+
+(** C07's hypotheses [original_correct] / [file_valid] hold of every file of the patch
+    WritePatch emits, from what C01 assumes of the differ ([diff_ok], proved of the real differ
+    by C11); that the patcher's [relay] then writes that file is C01's [process_series_ok],
+    used in the theorems below. *)
+Theorem original_series_valid :
+  forall (bs : Z) (differ : Z -> list byte -> list op) (old : build),
+    diff_ok bs (contents_of old) differ ->
+    forall (f : path * list byte) (ord : list (Z * Z)),
+      order_ok bs (tsizes_of (container_of old)) (file_in_of differ (container_of old) f ord) ->
+      file_valid (den_rsync bs) bs (tsizes_of (container_of old)) (contents_of old) (file_in_of differ (container_of old) f ord).
+Proof. exact file_valid_instance. Qed.
+Print Assumptions original_series_valid.
+
+(** Pass 2 with no abstract series left: for every old build, well-formed new build, differ
+    output satisfying [diff_ok], and ANY choice of mappings whose old-file indices exist,
+    [optimize] returns a series list; it is what the Go code writes (original ops, or the
+    controls bsdiff.Do returned for (mapped old file, new file)); and the C01 patcher applied to
+    the optimized message list in an empty directory succeeds, touches every file and produces
+    exactly the new build. *)
+Theorem optimize_any_mapping_instantiated :
+  forall (bs : Z) (differ : Z -> list byte -> list op) (old new : build)
+         (bsz : Z) (search : list byte -> N -> list byte -> Z * Z) (partitions : Z),
+    0 < bs -> wf_build new -> fits63 old -> fits63 new -> diff_ok bs (contents_of old) differ ->
+    build_bytes old -> build_bytes new ->
+    0 < bsz -> 0 <= partitions ->
+    (forall o bi, ScanProofs.search_in_range (Scan.len o) (search o bi)) ->
+  forall (xs : list (rseries * list byte * option (Z * Z))) (algo quality : Z),
+    map fst xs = originals differ old new ->
+    Forall (mapping_in_range (contents_of old)) xs ->
+    exists opt t touched trace,
+      optimize (bsd_series bsz search partitions) (contents_of old) xs = Some opt /\
+      Forall2 (written_by_go bsz search partitions (contents_of old)) xs opt /\
+      apply_patch_fresh bs (contents_of old) None (optimized_patch algo quality old new opt) = Ok (t, touched, trace) /\
+      touched = Z.of_nat (length (files_of new)) /\
+      forall p, tlookup t p = tlookup new p.
+Proof. exact optimize_any_mapping_lemma. Qed.
+Print Assumptions optimize_any_mapping_instantiated.
+
+(** Both passes: for every old build, well-formed new build, differ output satisfying [diff_ok],
+    every ForceMapAll / size limit, every iteration order of every reused-bytes map, every
+    bsdiff setting (scan block size, partitions, search oracle within range): the analysis
+    yields mappings, the patch rewritten with them is what the Go code writes, and applying the
+    optimized message list with the C01 patcher model to an empty directory yields the same tree
+    as applying the original one - the new build at every path. *)
+Theorem optimize_preserves_instantiated :
+  forall (bs : Z) (differ : Z -> list byte -> list op) (old new : build)
+         (bsz : Z) (search : list byte -> N -> list byte -> Z * Z) (partitions : Z),
+    0 < bs -> wf_build new -> fits63 old -> fits63 new -> diff_ok bs (contents_of old) differ ->
+    build_bytes old -> build_bytes new ->
+    0 < bsz -> 0 <= partitions ->
+    (forall o bi, ScanProofs.search_in_range (Scan.len o) (search o bi)) ->
+  forall (force : bool) (limit : Z) (ords : list (list (Z * Z))) (algo quality algo' quality' : Z),
+    length ords = length (files_of new) ->
+    Forall (order_ok bs (tsizes_of (container_of old))) (file_ins differ old new ords) ->
+    exists xs opt t touched trace,
+      analyze_all bs force limit (tsizes_of (container_of old)) (file_ins differ old new ords) = Some xs /\
+      optimize (bsd_series bsz search partitions) (contents_of old) xs = Some opt /\
+      Forall2 (written_by_go bsz search partitions (contents_of old)) xs opt /\
+      apply_patch_fresh bs (contents_of old) None (optimized_patch algo' quality' old new opt) = Ok (t, touched, trace) /\
+      touched = Z.of_nat (length (files_of new)) /\
+      (forall p, tlookup t p = tlookup new p) /\
+      exists t0 touched0 trace0,
+        apply_patch_fresh bs (contents_of old) None (write_patch differ algo quality old new) = Ok (t0, touched0, trace0) /\
+        forall p, tlookup t p = tlookup t0 p.
+Proof. exact optimize_preserves_instantiated_lemma. Qed.
+Print Assumptions optimize_preserves_instantiated.
+
+(** The same with the executable search of the C12 correspondence (Exec/C12.v [run_bsd]: naive
+    partitioned suffix array + the code's binary search, 128 KiB scan blocks), which C12 proves
+    within range: no hypothesis about any series or oracle is left. *)
+Theorem optimize_preserves_instantiated_psa :
+  forall (bs : Z) (differ : Z -> list byte -> list op) (old new : build) (partitions : Z),
+    0 < bs -> wf_build new -> fits63 old -> fits63 new -> diff_ok bs (contents_of old) differ ->
+    build_bytes old -> build_bytes new -> 0 <= partitions ->
+  forall (force : bool) (limit : Z) (ords : list (list (Z * Z))) (algo quality algo' quality' : Z),
+    length ords = length (files_of new) ->
+    Forall (order_ok bs (tsizes_of (container_of old))) (file_ins differ old new ords) ->
+    exists xs opt t touched trace,
+      analyze_all bs force limit (tsizes_of (container_of old)) (file_ins differ old new ords) = Some xs /\
+      optimize (bsd_series C12.GO_BLOCK (psa_oracle partitions) partitions) (contents_of old) xs = Some opt /\
+      Forall2 (written_by_go C12.GO_BLOCK (psa_oracle partitions) partitions (contents_of old)) xs opt /\
+      apply_patch_fresh bs (contents_of old) None (optimized_patch algo' quality' old new opt) = Ok (t, touched, trace) /\
+      touched = Z.of_nat (length (files_of new)) /\
+      (forall p, tlookup t p = tlookup new p) /\
+      exists t0 touched0 trace0,
+        apply_patch_fresh bs (contents_of old) None (write_patch differ algo quality old new) = Ok (t0, touched0, trace0) /\
+        forall p, tlookup t p = tlookup t0 p.
+Proof. exact optimize_preserves_instantiated_psa_lemma. Qed.
+Print Assumptions optimize_preserves_instantiated_psa.
+
+(** non-vacuity, by computation, on a tiny pair (block size 4): new file 0 is mapped to old file
+    0 and rewritten as the bsdiff series [run_bsd] computes, new file 1 keeps its full-file block
+    range; the optimized frames are the ones listed; the patcher model applied to the optimized
+    and to the original patch touches 2 files and both trees equal the new build *)
+Example optimize_apply_example :
+  analyze_all 4 false 1000 (tsizes_of (container_of ex_old)) (file_ins ex_differ ex_old ex_new ex_ords) = Some ex_xs /\
+  C12.run_bsd 0 [1;2;3;4;5;6;7;8]%N [1;2;3;4;0;6;7;8;9]%N = Scan.Ok ex_ctrls /\
+  optimize (bsd_series C12.GO_BLOCK (psa_oracle 0) 0) (contents_of ex_old) ex_xs = Some ex_opt /\
+  render_all 0 ex_opt =
+    [MSH (mkSH SH_BSDIFF 0); MBH (mkBH 0);
+     MCT (mkCT [0;0;0;0;251;0;0;0]%N [9]%N 0 false); MCT (mkCT [] [] 0 true); hey_msg;
+     MSH (mkSH SH_RSYNC 1); MSO (mkSO T_BLOCK_RANGE 1 0 1 []); hey_msg] /\
+  match apply_patch_fresh 4 (contents_of ex_old) None (optimized_patch 0 0 ex_old ex_new ex_opt),
+        apply_patch_fresh 4 (contents_of ex_old) None (write_patch ex_differ 0 0 ex_old ex_new) with
+  | Ok (t1, n1, tr1), Ok (t0, n0, tr0) =>
+      n1 = 2 /\ n0 = 2 /\
+      map (tlookup t1) [[1%N]; [2%N]; [3%N]] = map (tlookup ex_new) [[1%N]; [2%N]; [3%N]] /\
+      map (tlookup t0) [[1%N]; [2%N]; [3%N]] = map (tlookup ex_new) [[1%N]; [2%N]; [3%N]] /\
+      tr1 = [EvRead 0; EvWriter 0; EvTranspose 1 1; EvRead 1]
+  | _, _ => False
+  end.
+Proof. vm_compute. repeat split; reflexivity. Qed.
